@@ -25,6 +25,8 @@ def run(rep, tier):
     common.guarded(rep, "C07.3", c07_3, rep, E, ix)
     common.guarded(rep, "C07.4", c07_4, rep, ix)
     common.guarded(rep, "C07.5", c07_5, rep, ix)
+    common.guarded(rep, "C07.6", c07_6, rep, ix)
+    common.guarded(rep, "C07.7", c07_7, rep, ix)
     # a template include is instantiated for the call (`bb(**kwargs)`): the instantiation rules are part of "equals inlining it"
     from . import c04
     sites = common.guarded(rep, "C04.3", c04.c04_3, rep, ix)
@@ -119,7 +121,15 @@ def c07_1(rep, ix):
                     env[" ".join(u(s_.targets[0]).split())] = AEval(atom).ev(s_.value)
                 elif isinstance(s_, ast.If):
                     ev = AEval(atom)
-                    run(s_.body if ev.truth(ev.ev(s_.test)) else s_.orelse)
+                    try:
+                        c_ = ev.truth(ev.ev(s_.test))
+                    except Exception:
+                        # a test about something else: it only matters if one of its branches binds the directory
+                        if any(isinstance(x, ast.Attribute) and x.attr == "_cwd" and isinstance(x.ctx, ast.Store) or isinstance(x, ast.Name) and x.id == "cwd" and isinstance(x.ctx, ast.Store)
+                               for x in ast.walk(s_)):
+                            raise
+                        continue
+                    run(s_.body if c_ else s_.orelse)
                 elif isinstance(s_, (ast.For, ast.While, ast.Try, ast.With)) and any(isinstance(x, ast.Attribute) and x.attr == "_cwd" and isinstance(x.ctx, ast.Store) for x in ast.walk(s_)):
                     raise Inconclusive("__init__: self._cwd is bound inside `%s`" % type(s_).__name__)
         run(init.node.body)
@@ -145,8 +155,8 @@ def c07_1(rep, ix):
     fsl = calls(ld.node, lambda c: u(c.func).endswith("FileStream"))
     rep.check(len(fsl) == 1 and fsl[0].args and u(resolve(ld.node, fsl[0].args[0])) == ld.params[0], R, ix.site(ld), "load(filename) opens exactly that file", key="load|file")
     pr = ix.func("listener.parse")
-    lc = calls(pr.node, lambda c: isinstance(c.func, ast.Name) and c.func.id == "listener")
-    okp = len(lc) == 1 and any(k.arg == "cwd" and u(k.value) == "cwd" for k in lc[0].keywords) or (len(lc) == 1 and lc[0].args and u(lc[0].args[0]) == "cwd")
+    lc = calls(pr.node, lambda c: isinstance(c.func, ast.Name) and c.func.id in ("listener", "Listener", "BlackbirdListener"))      # the parameter, or its default read in place
+    okp = len(lc) >= 1 and all(any(k.arg == "cwd" and u(k.value) == "cwd" for k in c_.keywords) or (c_.args and u(c_.args[0]) == "cwd") for c_ in lc)
     rep.check(okp, R, ix.site(pr), "parse(data, listener, cwd) constructs the listener with that cwd", key="parse|cwd")
     # no chdir / getcwd elsewhere
     for q, g in ix.funcs.items():
@@ -180,6 +190,82 @@ def c07_2(rep, ix, O):
                       "got `%s`" % " ".join(u(z).split()), key="zip")
     if not found and not hits:
         raise Inconclusive("exitStatement: mode-map construction (zip over the included program's modes) not recognised")
+
+
+def c07_7(rep, ix):
+    R = "C07.7"
+    rep.rule(R, "operations enter the program being built only through exitStatement's dispatch (`if <name> in self._includes`: expansion, else: the operation itself): no other "
+                "handler of the listener adds to the operation list, so a call of an included program is expanded wherever it stands (inside a for-loop as well)", floor=2)
+    h = ix.func(HANDLER)
+    n = 0
+    for q, f in sorted(ix.funcs.items()):
+        if q != f.qual or f.cls != h.cls or q in getattr(ix, "absorbed", ()):
+            continue
+        for c in walk_shallow(f.node):
+            adds = (isinstance(c, ast.Call) and isinstance(c.func, ast.Attribute) and c.func.attr in ("append", "extend", "insert") and u(c.func.value).endswith("_program._operations")) \
+                or (isinstance(c, ast.AugAssign) and u(c.target).endswith("_program._operations"))
+            if not adds:
+                continue
+            n += 1
+            if q == HANDLER:
+                # under the dispatch on the include table?
+                from ..py.guards import path_to
+                st = stmt_of_call(f.node, c) if isinstance(c, ast.Call) else c
+                conds = [" ".join(u(s_[i_].test).split()) for (s_, i_, fld) in (path_to(f.node.body, st) or []) if isinstance(s_[i_], ast.If)]
+                rep.check(any("self._includes" in t_ for t_ in conds), R, ix.site(f, c), "`%s` stands under the dispatch on the include table" % " ".join(u(c).split())[:60],
+                          "conditions %s" % conds, key="dispatch|" + " ".join(u(c).split())[:50])
+            else:
+                rep.bad(R, ix.site(f, c), "only exitStatement adds operations to the program", "`%s` in %s adds operations without the include dispatch: a call of an included program that arrives "
+                        "this way stays an unexpanded operation" % (" ".join(u(c).split())[:60], f.name), key="bypass|%s" % q)
+    if n < 2:
+        raise Inconclusive("exitStatement: the two statements that add operations (expansion / plain operation) not found")
+
+
+def c07_6(rep, ix):
+    R = "C07.6"
+    rep.rule(R, "every mode of every expanded operation is replaced by its image under the mode map - decided by evaluating the replacement on a model map that sends a mode to 0, "
+                "a mode to itself and a mode to a mode that is itself a key", floor=3)
+    f = ix.func(HANDLER)
+    fn = f.node
+    from ..py.guards import ModelError
+    stores = [n for n in walk_shallow(fn) if isinstance(n, ast.Assign) and len(n.targets) == 1 and isinstance(n.targets[0], ast.Subscript)
+              and isinstance(n.targets[0].slice, ast.Constant) and n.targets[0].slice.value == "modes"]
+    zips = calls(fn, lambda c: isinstance(c.func, ast.Name) and c.func.id == "zip")
+    maps = [n for n in walk_shallow(fn) if isinstance(n, ast.Assign) and len(n.targets) == 1 and isinstance(n.targets[0], ast.Name) and any(z is x for z in zips for x in ast.walk(n.value))]
+    if len(maps) != 1:
+        raise Inconclusive("exitStatement: the mode map is not bound to one local")
+    mm = maps[0].targets[0].id
+    done = 0
+    for st in stores:
+        v = st.value
+        if isinstance(v, ast.Call) and u(v.func) in ("list", "tuple") and len(v.args) == 1:
+            v = v.args[0]
+        if not (isinstance(v, (ast.ListComp, ast.GeneratorExp)) and len(v.generators) == 1 and isinstance(v.generators[0].target, ast.Name) and not v.generators[0].ifs):
+            continue
+        if not any(isinstance(x, ast.Name) and x.id == mm for x in ast.walk(v)):
+            continue
+        it = " ".join(u(v.generators[0].iter).split())
+        rep.check(it.endswith("['modes']") or it.endswith('["modes"]'), R, ix.site(f, st), "the new mode list runs over the operation's own modes, in order", "runs over `%s`" % it, key="modes|iter")
+        var = v.generators[0].target.id
+        model = {1: 0, 2: 2, 3: 1}
+        for m_, want in sorted(model.items()):
+            def atom(node, m_=m_):
+                if isinstance(node, ast.Name) and node.id == var:
+                    return m_
+                if isinstance(node, ast.Name) and node.id == mm:
+                    return model
+                return AEval.NO
+            try:
+                got = AEval(atom).ev(v.elt)
+            except ModelError as e_:
+                got = "raises %s" % e_
+            except Inconclusive:
+                raise
+            rep.check(got == want, R, ix.site(f, st), "mode %d of an included operation becomes %d under the map %s" % (m_, want, model), "`%s` gives %r" % (" ".join(u(v.elt).split())[:50], got),
+                      key="modes|image|%d" % m_)
+            done += 1
+    if not done:
+        raise Inconclusive("exitStatement: no assignment of the mapped mode list to an expanded operation found")
 
 
 # ---------------------------------------------------------------------------------------- C07.3 no aliasing across calls
@@ -317,6 +403,14 @@ def c07_4(rep, ix):
 
 
 # ---------------------------------------------------------------------------------------- C07.5 merge / dedupe
+def resolved_text_(fn, e, at):
+    from ..py.guards import resolved_text
+    try:
+        return resolved_text(fn, e, at)
+    except Exception:
+        return " ".join(u(e).split())
+
+
 def c07_5(rep, ix):
     R = "C07.5"
     rep.rule(R, "nested includes are merged into the outer include table; a repeated include line returns before re-parsing; the expansion looks the include up by the operation name", floor=3)
@@ -334,6 +428,19 @@ def c07_5(rep, ix):
             if any(isinstance(x, ast.Return) for x in ast.walk(s)) and "filename" in u(s):
                 early = True
     rep.check(early, R, ix.site(f), "a file that was already included returns before it is parsed again", key="dedupe")
+    # ... and an include line is skipped only when THIS listener's table already holds that file: what decides the early return is read from
+    # self._includes (a record of visited files kept elsewhere - shared with other listeners, say - does not say the table has the program)
+    from ..py.guards import path_to
+    for r_ in [x for x in walk_shallow(f.node) if isinstance(x, ast.Return) and (not fs or pos(x) < pos(fs[0]))]:
+        conds = []
+        for (stmts, i_, fld) in path_to(f.node.body, r_) or []:
+            s_ = stmts[i_]
+            if isinstance(s_, ast.If):
+                conds.append(resolved_text_(f.node, s_.test, s_))
+            elif isinstance(s_, ast.For):
+                conds.append(resolved_text_(f.node, s_.iter, s_))
+        rep.check(any("self._includes" in c_ for c_ in conds), R, ix.site(f, r_), "an include line is skipped only if this listener's own include table already holds the file",
+                  "the early return depends on `%s`" % " and ".join(conds)[:100], key="dedupe|own table")
     h = ix.func(HANDLER)
     look = [n for n in walk_shallow(h.node) if isinstance(n, ast.Compare) and len(n.ops) == 1 and isinstance(n.ops[0], ast.In) and u(n.comparators[0]) == "self._includes"]
     rep.check(len(look) >= 1, R, ix.site(h), "a statement is expanded iff its operation name is a registered include", key="lookup")
